@@ -158,6 +158,30 @@ theorem trailer_roundtrip (hs : Bool) (sub : Bytes) (st : Status) (tr : MD)
       mdGet (if hs then [] else ctMD sub) key ++ valsFor (sentPairs tr []) key :=
   Lemmas.MdWire.trailer_roundtrip hs sub st tr hc hd
 
+/-- Several header calls in one handler (SetHeader / SendHeader through either API, `hdrRun`): the
+    client's Header() has, for every non-reserved key, exactly the values of the calls that
+    SUCCEEDED, in call order — `metadata.Join` semantics; a call that failed (validation, or after
+    the HEADERS frame went out) contributes nothing. The handler's metadata values are only read:
+    in the model no call can change what a later call, or a later RPC, contributes. -/
+theorem header_calls_roundtrip (sub : Bytes) (calls : List (HdrApi × MD))
+    (hw : wireOK (headerFrame sub (Lemmas.MdWire.hdrRun calls {}).1.header) = true) (key : Bytes) (hk : isReservedHeader key = false) :
+    ∃ m, clientHeaders (headerFrame sub (Lemmas.MdWire.hdrRun calls {}).1.header) = .md m ∧
+      mdGet m key = mdGet (ctMD sub) key ++ (Lemmas.MdWire.accepted calls {}).flatMap (Lemmas.MdWire.valsAll · key) :=
+  Lemmas.MdWire.header_calls_roundtrip sub calls hw key hk
+
+/-- Several SetTrailer calls (status without details, code < 2^31): the same for Trailer(). -/
+theorem trailer_calls_roundtrip (hs : Bool) (sub : Bytes) (st : Status) (mds : List MD)
+    (hc : st.code < 2147483648) (hd : st.details = []) (key : Bytes) (hk : isReservedHeader key = false) :
+    mdGet (clientTrailers (!hs) (writeStatus hs sub st (mds.foldl trlCall []))).2 key =
+      mdGet (if hs then [] else ctMD sub) key ++ mds.flatMap (Lemmas.MdWire.valsAll · key) :=
+  Lemmas.MdWire.trailer_calls_roundtrip hs sub st mds hc hd key hk
+
+/-- `metadata.Join` on maps: per key, the first argument's values then the second's; the result
+    is a proper map again. -/
+theorem join_per_key (a b : MD) (ha : Lemmas.MdWire.Distinct a) (key : Bytes) :
+    Lemmas.MdWire.Distinct (mdJoin a b) ∧ mdGet (mdJoin a b) key = mdGet a key ++ Lemmas.MdWire.valsAll b key :=
+  Lemmas.MdWire.mdJoin_spec a b ha key
+
 /-- Validated metadata only produces header fields the HTTP/2 framer of the peer accepts (legal
     lowercase token names; values without control bytes: printable ASCII, or base64 text). -/
 theorem valid_md_wire_ok (md : MD) (h : validate md = true) : wireOK (fieldsFromMD md) = true :=
@@ -193,6 +217,8 @@ theorem server_switch_names :
       "grpc-timeout", "connection"] := by decide
 
 -- non-vacuity
+example : (Lemmas.MdWire.hdrRun [(.ctxSet, [([104], [[49]])]), (.ssSend, [([104], [[50]]), ([105], [])]), (.ctxSet, [([104], [[51]])])] {}).1.header
+    = [([104], [[49], [50]]), ([105], [])] := by decide
 example : validOutgoing [([107], [[118]]), ([107, 45, 98, 105, 110], [[0, 255]])] (appendToOutgoing [([70, 111, 111], [120])]) = true := by decide
 example : ∃ m, serverRecv (baseFields demoCfg ++ userFields [([107], [[118], [119]])] (appendToOutgoing [([75], [120])])) = .handler m ∧
     mdGet m [107] = [[118], [119], [120]] := ⟨baseMD demoCfg ++ [([107], [[118], [119], [120]])], by decide, by decide⟩
